@@ -70,9 +70,12 @@ def key_of(t):
 # ---------------------------------------------------------------- rendering to Prolog text
 _PLAIN = re.compile(r"[a-z][A-Za-z0-9_]*\Z")
 
+QUOTE_NIL = [False]      # render mode "qnil": the empty list that is not part of list syntax is written '[]'
+
+
 def render_atom(n):
     if n == "[]":
-        return "[]"
+        return "'[]'" if QUOTE_NIL[0] else "[]"
     if _PLAIN.match(n) and n not in ("true", "fail"):
         return n
     return "'" + n.replace("'", "\\'") + "'"
@@ -155,6 +158,12 @@ def render_body(b, mode="full", vn=None):
 
 def render_clause(c, mode="full"):
     vn = None
+    if mode == "qnil":
+        QUOTE_NIL[0] = True
+        try:
+            return render_clause(c, "full")
+        finally:
+            QUOTE_NIL[0] = False
     if mode.startswith("names:"):
         # named variables spelled like names a compiler might generate itself (`_G1`, `_x1`, `X1`, `_1`, ...)
         fmt = mode[6:]
